@@ -32,6 +32,9 @@ def instances(which):
         elif w == 'F2':
             # fully specified transition structure (the colours only come from the wild-card parameters)
             out.append(Instance('F2', 2, regs={(0, 0): '-??', (1, 0): '-??', (0, 1): '-??', (1, 1): '-??'}, explicit={0: 'v1 | !v0', 1: '!v0'}))
+        elif w == 'W2':
+            # one-way switches: v0 can never fall and v1 can never rise, in any colour (emptiness tests over all colours see "no such transition")
+            out.append(Instance('W2', 2, regs={(0, 0): '-??', (1, 0): '-??', (0, 1): '-??', (1, 1): '-??'}, explicit={0: 'v0 | f0(v1)', 1: 'v1 & f1(v0)'}))
         elif w == 'U3': out.append(Instance('U3', 3, wild=('w',), zero=()))
         elif w == 'S3': out.append(Instance('S3', 3, regs={(0, 0): '-??', (1, 1): None, (2, 2): None}, explicit={0: 'f0(v1, v2)', 1: 'f1(v0, v2)', 2: 'f2(v0, v1)'}, wild=('w',), zero=('g',),
                                             ctx={'w': {'t': 'param', 'name': 'w'}, 'd': {'t': 'and', 'a': [{'t': 'param', 'name': 'w'}, {'t': 'param', 'name': 'g'}]}, 'empty': {'t': 'empty'}, 'full': {'t': 'unit'}}))
